@@ -138,6 +138,7 @@ type SpecFunc struct {
 	Decr    Expr
 	NoAxiom bool
 	Opaque  bool // declared + triggered defining axiom even when non-recursive
+	Uses    []string
 	Text    string
 	File    string
 	Line    int
@@ -1020,6 +1021,12 @@ func (p *parser) parseSpec() (*SpecFunc, error) {
 			return nil, err
 		}
 		sf.Decr = d
+	}
+	if p.isId("uses") {
+		p.adv()
+		for p.peek().k == "id" && !p.isOp("=") {
+			sf.Uses = append(sf.Uses, p.adv().s)
+		}
 	}
 	if p.isOp("=") {
 		p.adv()
